@@ -10,6 +10,16 @@ CLAIMS = {
    text="Every swept cell (17 operators x 16 kinds x up to 110 shape pairs, 1-3 value draws) is executed through Interpreter::interpret on API-bound operands and judged elementwise against scalar evaluations and exact/IEEE reference arithmetic; incompatible shapes must be errors. Held on the executions produced, nothing is claimed for unvisited shapes or values.",
    note="Trusts: the harness' reference arithmetic (i128/u128 checked, Rust f64/f32 primitives), canonicalisation through Matrix::as_vec/shape, and that binding operands with ProgramState::save_symbol is equivalent to defining them in source (a literal-built stratum cross-checks this).",
    ref="6/C01"),
+ "C03": dict(
+   technique="runtime monitoring: 1-based column-major reference selection model over a systematic kind x shape x index-form x boundary-variant sweep; before/after symbol snapshots (read purity); ASan flavour in thorough",
+   text="Every cell (16 kinds x 11 shapes x 31 index forms x in-range and each boundary out-of-range variant) is interpreted on a matrix whose elements encode their own linear index and compared with the reference selection (elements, order, count, documented 2-D shape); out-of-range and wrong-length masks must be errors; the symbol table must be unchanged by the read.",
+   note="Trusts the harness reference selector and canonicalisation; 'supported' forms are learned from the in-range read of the same cell (forms listed in docs/reference/indexing.mec must be supported on general matrices).",
+   ref="6/C03"),
+ "C04": dict(
+   technique="runtime monitoring: reference store (model matrix + C01 reference arithmetic) compared with full-variable snapshots after every assignment statement; frame and failure-atomicity monitors; histories of 3-8 assignments; ASan flavour in thorough",
+   text="Every cell (kind x shape x index form x operator {=,+=,-=,*=,/=} x source {scalar, vector, wrong kind} x in-range / out-of-range variant) runs one statement in a session holding the target, a bystander and then compares every element, the shape, the kind, the bystander and the read-back with the model; failing statements must leave all symbols unchanged.",
+   note="Trusts the harness model; sources are written as typed literals (N<kind>); a statement form that fails on in-range input is treated as unsupported and only its atomicity is judged.",
+   ref="6/C04"),
 }
 NOT_YET = "not claimed yet: the monitor for this property is still being built in this session (see DESIGN.md section 6 for the planned check)"
 
